@@ -17,6 +17,8 @@
   is a function of `(pos, g)` only.
 -/
 
+import NiftyVerif.Model.CgRe
+
 namespace NiftyVerif.NewtonRe
 
 structure Cfg (K : Type) where
@@ -213,6 +215,18 @@ def ncgStatic (c : Cfg K) (f : V → K × V) (hessp : V → V → V) (ip : V →
   let fe := f x0
   let v0 : SSt K V := { status := if c.maxiter = 0 then 0 else -2, it := 0, pos := x0, energy := fe.1, g := fe.2 }
   (ncgStaticLoop c f hessp ip gradnorm cg c.maxiter v0).map fun v => ⟨v.pos, v.status, v.energy, v.g, v.it⟩
+
+/-- the CG oracle instantiated by the C15 model of `conjugate_gradient._cg`: `cg(Partial(hessp, pos), g, **kw)`
+    returning `(cg_res.x, cg_res.info)`; a raised error is mapped to `info = −1` -/
+def cgOracle (cc : CgRe.Cfg K) (ip : V → V → K) (hessp : V → V → V) : V → V → V × Int := fun pos g =>
+  match CgRe.cgEager cc ip (hessp pos) g none with
+  | .ok r => (r.x, r.info)
+  | .error _ => (g, -1)
+
+/-- same with `_static_cg` -/
+def cgOracleStatic (cc : CgRe.Cfg K) (ip : V → V → K) (hessp : V → V → V) : V → V → V × Int := fun pos g =>
+  let s := CgRe.cgStatic cc ip (hessp pos) g none
+  (s.pos, s.info)
 
 /-! ### trust region -/
 
